@@ -171,6 +171,28 @@ class Harness:
                 rec = {"name": name, "time_s": round(time.time() - t2, 4), "status": "holds", "without_nonlinear_reasoning": True}
                 self.obligations.append(rec)
                 return rec
+            # fourth stage: the same query through a simplifier that pushes arithmetic into the if-then-else terms left by
+            # outcome merging and eliminates the equations that define intermediate values, then the SMT core
+            try:
+                tac = z3.Then(z3.With("simplify", push_ite_arith=True, som=True), "propagate-values", "solve-eqs", "smt")
+                s3 = tac.solver()
+                s3.set("timeout", 20000)
+                for _, a in self.assumptions:
+                    s3.add(a)
+                for c in st.pc:
+                    s3.add(c)
+                for c in extra:
+                    s3.add(c)
+                s3.add(z3.Not(claim))
+                t3 = time.time()
+                r3 = s3.check()
+                self.solver_time += time.time() - t3
+                if r3 == z3.unsat:
+                    rec = {"name": name, "time_s": round(time.time() - t3, 4), "status": "holds", "decided_by": "z3 (push-ite / solve-eqs pipeline)"}
+                    self.obligations.append(rec)
+                    return rec
+            except z3.Z3Exception:
+                pass
         s = z3.Solver()
         s.set("timeout", self.timeout_ms)
         for _, a in self.assumptions:
@@ -180,11 +202,23 @@ class Harness:
         for c in extra:
             s.add(c)
         s.add(z3.Not(claim))
+        if not z3.is_false(z3.simplify(claim)) and self.timeout_ms > 30000:
+            # fifth stage: an early, short second opinion: cvc5 is often much quicker than z3 on these mixed ite / polynomial queries
+            t5 = time.time()
+            r5 = second_opinion(s, 30)
+            self.solver_time += time.time() - t5
+            if r5 == "unsat":
+                rec = {"name": name, "time_s": round(time.time() - t5, 4), "status": "holds", "decided_by": "cvc5"}
+                self.obligations.append(rec)
+                return rec
         t = time.time()
         r = s.check()
         dt = time.time() - t
         self.solver_time += dt
         rec = {"name": name, "time_s": round(dt, 4)}
+        if dt > 5 and os.environ.get("M2S_DUMP_SLOW"):
+            fn = os.path.join(os.environ["M2S_DUMP_SLOW"], re.sub(r"[^\w]", "_", self.name + "_" + name)[:120] + ".smt2")
+            open(fn, "w").write("(set-logic ALL)\n" + s.to_smt2())
         if r == z3.unsat:
             rec["status"] = "holds"
         elif r == z3.sat:
